@@ -213,6 +213,11 @@ def c04(shape: Shape, hist, obs, realisation: str = "", store_kind: str = "local
         o = obs.get(i, {})
         if o.get("fatal") or o.get("loads_fatal"):
             raise RuntimeError("worker failure: %s" % (o.get("fatal") or o.get("loads_fatal"),))
+        if (o.get("err") or {}).get("setup"):
+            # the store of this variant cannot even be configured / the program cannot be imported
+            res.append(("C04|store-cannot-be-configured|%s|store=%s" % (o["err"]["type"], store_kind),
+                        _detail(shape, hist, i, o, realisation=realisation)))
+            return res
         if rec["err"] != "" or o.get("err") is not None or o.get("result") != rec["result"]:
             break
         loads = o.get("loads")
